@@ -396,7 +396,7 @@ static void CodeENDCASE(void) {
             PIfSave NewSave;
 
             IfAsm = FirstIfSave->SaveIfAsm;
-            if (!FirstIfSave->CaseFound) {
+            if (FirstIfSave->SaveIfAsm && !FirstIfSave->CaseFound) {
                 WrError(ErrNum_NoCaseHit);
             }
             NewSave     = FirstIfSave;
